@@ -46,12 +46,7 @@ func ReadHistories(path string) ([]History, error) {
 // runOne executes one history: the service is started, request goroutines run continuously, one
 // writer goroutine per source performs the source's steps, every source is settled at the end.
 func runOne(h History, o Options, w *trace.Writer, wmu *sync.Mutex) (map[string]int, error) {
-	t0 := time.Now()
 	e, err := startEnv(h, o)
-	if os.Getenv("VERIF_E2E_DEBUG") != "" {
-		fmt.Fprintf(os.Stderr, "start %s: %v\n", h.ID, time.Since(t0))
-		defer func() { fmt.Fprintf(os.Stderr, "run %s: %v\n", h.ID, time.Since(t0)) }()
-	}
 	if err != nil {
 		if e != nil {
 			e.stop()
